@@ -347,7 +347,3 @@ def replay_main(path):
     return 0
 
 
-if __name__ == "__main__":
-    if sys.argv[1] == "--replay":
-        sys.exit(replay_main(sys.argv[2]))
-    sys.exit(worker_main(sys.argv[1:]))
